@@ -89,10 +89,24 @@ unsafe fn find(ptr: usize) -> Option<Slot> {
 
 fn pad(align: usize) -> usize { if align > RZ { align } else { RZ } }
 
+/// Ordering probe: while armed, the FIRST allocation made inside an accounting window samples `PROBE_FN(PROBE_ARG)` (a read of a
+/// share counter through the verification hook: no allocation, no lock) and stores it in `PROBE_MIN` (later allocations belong to what the operation does with its own private buffer).  The bytes driver
+/// uses it to check that a shared buffer's share is not handed back BEFORE the private copy of its content is allocated
+/// (a copy made after the release could read memory another thread has freed in between).
+pub static PROBE_ARG: AtomicUsize = AtomicUsize::new(0);
+pub static PROBE_FN: AtomicUsize = AtomicUsize::new(0);
+pub static PROBE_MIN: AtomicUsize = AtomicUsize::new(0);
+pub static PROBE_HIT: AtomicBool = AtomicBool::new(false);
+pub fn arm_probe(arg: usize, f: fn(usize) -> usize) { PROBE_HIT.store(false, SeqCst); PROBE_FN.store(f as usize, SeqCst); PROBE_ARG.store(arg, SeqCst); }
+/// the sample taken at the first allocation, if there was one
+pub fn disarm_probe() -> Option<usize> { PROBE_ARG.store(0, SeqCst); if PROBE_HIT.load(SeqCst) { Some(PROBE_MIN.load(SeqCst)) } else { None } }
+
 unsafe fn raw_alloc(layout: Layout) -> *mut u8 {
     let lim = LIMIT.load(SeqCst);
     if WINDOW.load(SeqCst) {
         MAX_REQUEST.fetch_max(layout.size(), SeqCst);
+        let arg = PROBE_ARG.load(SeqCst);
+        if arg != 0 && !PROBE_HIT.load(SeqCst) { let f: fn(usize) -> usize = std::mem::transmute(PROBE_FN.load(SeqCst)); PROBE_MIN.store(f(arg), SeqCst); PROBE_HIT.store(true, SeqCst); }
     }
     if lim != 0 && layout.size() > lim {
         REFUSED.fetch_add(1, SeqCst);
